@@ -125,11 +125,53 @@ for h in histories:
     if not px.alive():
         break
 
+# ---- refused replacements, many of them: a list that is refused leaves the list in force exactly as it was - also the
+#      640th time, also when what is in force sits close to a limit the refused one exceeds. In force: one always-true
+#      filter nested close to the evaluation bound; refused: the same shape beyond it (and three other kinds of broken
+#      list); afterwards every request is still allowed and reading the list and posting it back is accepted
+if px.alive():
+    def chain(n):
+        return 'true' + ' && true' * n
+    deep_ok = f'let a = {chain(90)} in a{" && true" * 90}'
+    too_deep = f'let a = {chain(120)} in a{" && true" * 120}'
+    st, body = px.api('POST', '/rules', json.dumps([{'filter': deep_ok, 'target': 'direct'}, {'target': 'deny'}]))
+    if st != 200:
+        machinery(f'the deep list was refused: {st} {body[:200]}')
+    before = canon_rules()
+    first = [request_allowed() for _ in range(40)]
+    refused_kinds = {'too-deep': [{'filter': too_deep, 'target': 'direct'}], 'syntax': [{'filter': '1 +', 'target': 'direct'}],
+                     'type': [{'filter': '1 + 1', 'target': 'direct'}], 'unknown-target': [{'target': 'nosuch'}]}
+    accepted = []
+    for i in range(640):
+        kind = ('too-deep', 'too-deep', 'too-deep', 'syntax', 'too-deep', 'type', 'too-deep', 'unknown-target')[i % 8]
+        st, body = px.api('POST', '/rules', json.dumps(refused_kinds[kind]))
+        if st == 200:
+            accepted.append(kind)
+    evals += 640
+    after = [request_allowed() for _ in range(200)]
+    rules_after = canon_rules()
+    back = []
+    for _ in range(32):
+        st_g, body_g = px.api('GET', '/rules')
+        st_p, _ = px.api('POST', '/rules', body_g)
+        back.append(st_p)
+    distinct.add(('many-refused', all(first), all(after), rules_after == before))
+    replay = {'in_force': deep_ok[:60] + '...', 'refused_posts': 640}
+    if accepted:
+        chk.violation('rules.reload', 'invalid-list-accepted:after-many-refusals', f'{len(accepted)} of 640 broken lists were accepted ({sorted(set(accepted))})', replay)
+    if any(x is not True for x in first):
+        machinery(f'the deep always-true list does not allow requests: {first[:5]}')
+    if any(x is not True for x in after) or rules_after != before:
+        chk.violation('rules.reload', 'refused-replacements-change-the-list-in-force', f'after 640 refused POSTs (nesting beyond the bound, syntax, type, unknown target) {sum(1 for x in after if x is not True)} of 200 requests that the list in force allows were refused; GET /rules unchanged: {rules_after == before}', replay)
+    if any(x != 200 for x in back):
+        chk.violation('rules.reload', 'post-back-of-the-list-in-force-refused:after-many-refusals', f'after 640 refused POSTs, reading the list in force and posting it back was answered {sorted(set(back))} in {sum(1 for x in back if x != 200)} of 32 rounds', replay)
+    samples.append({'many_refused': {'requests_allowed_after': after.count(True), 'post_back': sorted(set(back))}})
+
 px.stop()
 origin.stop()
 if evals < 20 or len(distinct) < 3:
     machinery(f'vacuous: evals={evals} distinct={len(distinct)}')
 cov = {'evaluations': evals, 'distinct_nontrivial': len(distinct), 'transitions': evals, 'traces_validated_against_impl': evals,
-       'rule': 'real binary: every reload event (3 valid lists, 18 broken lists, GET-then-POST-back) after every history of valid events up to the depth bound; three sequential CONNECT requests after each event',
+       'rule': 'real binary: every reload event (3 valid lists, 18 broken lists, GET-then-POST-back) after every history of valid events up to the depth bound; three sequential CONNECT requests after each event; 640 refused replacements (nesting beyond the bound, syntax, type, unknown target) against a list nested close to the bound: 200 requests still allowed, post-back accepted',
        'histories': len(histories), 'events': len(events), 'schedule_control': 'kernel', 'samples': samples}
 sys.exit(chk.finish('model_checking', cov, ['E4 part: real sockets, kernel scheduling between lock-step script steps is not controlled']))
